@@ -421,7 +421,7 @@ fn epistemic_clause(sel: &PolicySel, params: &mut serde_json::Map<String, Json>)
 /// oracle (6) on the result context: it names the same policy as the row.
 pub fn query_belief(w: &World, rec: &Recorded, prop: u8, q: &Query, form: u8) -> Result<Answer, String> {
     let mut params = w.base_params();
-    params.insert("t".into(), json!(day(q.t)));
+    params.insert("t".into(), json!(q.instant()));
     params.insert("s".into(), endpoint(&rec.subject));
     params.insert("p".into(), json!(rec.props[&prop]));
     let pred = rec.predicate;
@@ -453,7 +453,7 @@ pub fn query_belief(w: &World, rec: &Recorded, prop: u8, q: &Query, form: u8) ->
 /// candidate projections by proposition id, plus `accepted_values`.
 pub fn query_slot(w: &World, rec: &Recorded, q: &Query) -> Result<(BTreeMap<String, Answer>, BTreeSet<String>), String> {
     let mut params = w.base_params();
-    params.insert("t".into(), json!(day(q.t)));
+    params.insert("t".into(), json!(q.instant()));
     params.insert("s".into(), endpoint(&rec.subject));
     let text = format!("FIND(?slot) WHERE {{ ?slot BELIEF SLOT (:s, \"{}\") }} FOR TIME :t{}", rec.predicate, epistemic_clause(&q.policy, &mut params));
     let body = w.env.exec_ok(&text, Json::Object(params))?;
